@@ -165,6 +165,18 @@ CHECKS = {
             "assumptions": ["with PushInterval 0 (documented: pushes disabled) convergence is only demanded after a final client-issued mutation", "client-issued mutations of states the network machine does not know are skipped (documented panic)", "hold keeps the bytes of the server->client direction back (a stalled link), cut closes both directions (a dropped connection); no byte is ever lost or reordered inside a live link", "part 2 delays stay below the default handler timeout (100ms): a longer stall inside a handler is a handler timeout, not this property's subject", "goroutine scheduling inside a bubble is the Go scheduler's (GOMAXPROCS=1) except for the enumerated delays; verdicts that do not reproduce on an immediate re-run are counted (irreproducible) and not reported"],
         },
     },
+    "C15": {
+        "pkg": "harness/c15",
+        "instr": {"features": ["net", "sync", "go"], "pkgs": ["pkg/rpc", "pkg/node", "pkg/machine"], "inject": ["pkg/node"], "substfile": "inpkg/subst/mux-accept.json"},
+        "shards": {"quick": 16, "thorough": 16},
+        "gomaxprocs": 1,
+        "budget_s": {"quick": 240, "thorough": 2400},
+        "hard_timeout_s": {"quick": 900, "thorough": 3600},
+        "meta": {
+            "rule": "the real node.Supervisor with its whole fork pipeline (bootstrap RPC servers, rpc.Mux, per-worker rpc.Client) and real node.Workers created by the TestFork seam, all over the in-memory network and inside one testing/synctest bubble per execution; pool settings (Min,Max,Warm) in {(1,1,0),(1,2,0),(2,2,1),(2,3,1),(0,2,2),(3,2,1)} (+4 in thorough) x every event history of depth <= 3 (quick: every 3rd of depth 3) over 13 events: time (2s / 61s = a Heartbeat), cut of a worker's links, injected worker errors, a worker dying, a worker turning not-Ready / Ready, a worker doing work, the next 2 forks failing, CheckPool, Heartbeat; a tracer on the supervisor samples len(workers) / readyWorkers() at every TransitionEnd (in-package accessor): tracked <= Max, no fork accepted at Max, PoolReady only activated with >= min ready and only withdrawn with < min ready, <=1 member of PoolStatus / PoolNormalized active; a tracer on every worker: <=1 member of WorkStatus; every worker seen with more than WorkerErrKill remembered errors had TestKill called by the end",
+            "assumptions": ["pool settings are fixed before Start (SetPool on a running pool is a reconfiguration, not covered)", "WorkerErrKill=1 so that two injected errors cross the limit", "TestKill stops the worker and reports WorkerKilled (what the real kill path does)", "go-cache (error TTL caches) and rpc.Mux.accept carry a verif-only hook each so that a bubble can finish (janitor goroutines end on request; no spinning on a closed listener)", "goroutines left blocked after the tear-down are counted (leaked_goroutines_runs), not judged"],
+        },
+    },
     "C17": {
         "pkg": "harness/c17",
         "shards": {"quick": 1, "thorough": 1},
